@@ -139,6 +139,10 @@ static std::string do_X(const std::vector<std::string>& f, double den) {
     std::vector<double> v = l.vectorize((int)k);
     for (size_t j = 0; j < v.size(); ++j) { if (j) s += " "; s += rat(v[j]); }
   }
+  // levels at and beyond size() are the zero function: vectorize must answer with an empty vector
+  s += " # " + std::to_string(l.vectorize((int)l.size()).size()) + " " + std::to_string(l.vectorize((int)l.size() + 1).size());
+  // find_max of the zero levels at and beyond size()
+  s += " # " + rat(l.find_max((unsigned)l.size())) + " " + rat(l.find_max((unsigned)l.size() + 1));
   return s;
 }
 
